@@ -128,6 +128,7 @@ type pathState struct {
 	counters  map[string]int64
 	tail      *tailCall
 	syncMaps  map[*Object]map[int]*MapObj
+	pools     map[poolKey][]Value
 	timerObjs map[*Object]*vtimer
 }
 
@@ -460,10 +461,31 @@ func (e *Engine) lightInit(initFn *ssa.Function) {
 				continue
 			}
 			gl, ok := st.Addr.(*ssa.Global)
+			fieldOff := -1
 			if !ok {
-				continue
-			}
-			if _, isAgg := gl.Type().(*types.Pointer).Elem().Underlying().(*types.Struct); isAgg {
+				// a constant or function stored into a field of a global struct
+				// (`var pool = sync.Pool{New: func...}`): follow the FieldAddr chain to the global
+				off, cur, good := 0, st.Addr, true
+				for good {
+					fa, isFA := cur.(*ssa.FieldAddr)
+					if !isFA {
+						break
+					}
+					stt, isSt := fa.X.Type().(*types.Pointer).Elem().Underlying().(*types.Struct)
+					if !isSt {
+						good = false
+						break
+					}
+					_ = stt
+					off += e.layout(fa.X.Type().(*types.Pointer).Elem()).fields[fa.Field]
+					cur = fa.X
+				}
+				g2, isGl := cur.(*ssa.Global)
+				if !good || !isGl || cur == st.Addr {
+					continue
+				}
+				gl, fieldOff = g2, off
+			} else if _, isAgg := gl.Type().(*types.Pointer).Elem().Underlying().(*types.Struct); isAgg {
 				continue
 			}
 			val := st.Val
@@ -487,7 +509,11 @@ func (e *Engine) lightInit(initFn *ssa.Function) {
 				o = e.allocGlobal(gl)
 				e.p.globals[gl] = o
 			}
-			if len(o.Cells) == 1 {
+			if fieldOff >= 0 {
+				if fieldOff < len(o.Cells) {
+					o.Cells[fieldOff] = v
+				}
+			} else if len(o.Cells) == 1 {
 				o.Cells[0] = v
 			}
 		}
